@@ -78,7 +78,7 @@ def ioMapStr : Option (List (Nat × Target)) → String
   | none => "none"
   | some l =>
     let sorted := l.foldr insertSorted []
-    (vec (sorted.map fun kv => .list [num kv.1, targetSx kv.2])).print
+    ((vec (sorted.map fun kv => .list [num kv.1, targetSx kv.2])).print).replace " " ","
 
 /-- Observation of compile + renders, in the harness's format (clock fields copied). -/
 def compileObs (t0 t1 : String) (clk : Nat → Nat) (e : Expr) (o : RunOptions) (paths : List Text) : String :=
